@@ -296,6 +296,9 @@ class IndexBackend(ArraySchemaBackend):
                 reason_code=SchemaErrorReason.MISMATCH_INDEX,
             )
 
+        if not inplace:
+            check_obj = check_obj.copy()
+
         error_handler = ErrorHandler(lazy)
 
         if schema.coerce:
